@@ -99,7 +99,17 @@ def acc : Handler := fun args impl =>
         let s1 := if got == exp then [] else [s!"C06 accessors as_i64|as_u64|as_i128|as_u128 = {String.intercalate "|" got}, the literal's exact values are {String.intercalate "|" exp}"]
         let s2 := if (fields.getD 4 "" == "1") == (fields.getD 0 "" != "N") && (fields.getD 5 "" == "1") == (fields.getD 1 "" != "N") then []
                   else ["C06 is_i64/is_u64 disagree with as_i64/as_u64"]
-        { model := impl, specs := s1 ++ s2 }
+        -- arbitrary_precision: as_f64 is the nearest finite f64 of the literal's exact value, or None
+        let s3 := if !cfg.ap then [] else
+          let expF : String := match Model.Num.exact p with
+            | .zero => hex16 (Spec.Ieee.F64.zero p.neg)
+            | .tiny => hex16 (Spec.Ieee.F64.zero p.neg)
+            | .huge => "N"
+            | .rat n d => match Spec.Ieee.roundNE64 p.neg n d with
+              | some b => hex16 b
+              | none => "N"
+          if fields.getD 7 "" == expF then [] else [s!"C20 as_f64 = {fields.getD 7 ""}, the nearest finite f64 of the literal is {expF}"]
+        { model := impl, specs := s1 ++ s2 ++ s3 }
     | none => bad "hex"
   | _ => bad "arity"
 
